@@ -104,7 +104,7 @@ OBS = {
                                             contract="every child that can hold a heap handle - keys AND values of a hash map, set members, vector/list elements, struct fields, stream parts, both halves of a pair, box content, captures and contract of a closure - is queued for marking"),
     "visitor_handle_arms_contract": dict(props=["C04"], kind="bounded", bound="1 cell / vector of 1", functions=["MarkAndSweepContext::visit_heap_allocated", "MarkAndSweepContext::visit_mutable_vector"],
                                          contract="visiting a handle marks the designated cell / vector"),
-    "host_roots_contract": dict(props=["C04"], kind="bounded", bound="histories of <= 4 root/free operations", functions=["Roots::root", "Roots::free", "Roots::increment_generation"],
+    "host_roots_contract": dict(props=["C04", "C19"], kind="bounded", bound="histories of <= 4 root/free operations", functions=["Roots::root", "Roots::free", "Roots::increment_generation"],
                                 contract="every live RootToken keeps its own entry: root() never reuses the key of a live token, free() removes exactly its entry"),
     "heapref_get_set_contract": dict(props=["C04"], kind="proof", functions=["HeapRef::get", "HeapRef::set", "HeapRef::set_and_return", "HeapRef::set_interior_mut", "HeapRef::ptr_eq"],
                                      contract="set replaces exactly the designated cell's value and returns the old one; get returns the last value stored; marks untouched"),
